@@ -503,6 +503,12 @@ int sbdf_tm_write(FILE* out, sbdf_tablemetadata const* in)
 			return error;
 		}
 
+		if (!meta->value)
+		{
+			/* an entry read without a value has no type to write */
+			return SBDF_ERROR_INCORRECT_METADATA;
+		}
+
 		if (error = sbdf_vt_write(out, meta->value->type))
 		{
 			return error;
